@@ -451,25 +451,25 @@ class _DevicesLogicType(_BaseBatchAccess):
 
     @property
     def Minimum(self) -> float:
-        obj = copy.deepcopy(self._obj)
+        obj = copy.copy(self._obj)
         obj._batch_mode = LogicBatchMethod.Minimum
         return _DeviceLogicType(obj, self._logic_type)
 
     @property
     def Maximum(self) -> float:
-        obj = copy.deepcopy(self._obj)
+        obj = copy.copy(self._obj)
         obj._batch_mode = LogicBatchMethod.Maximum
         return _DeviceLogicType(obj, self._logic_type)
 
     @property
     def Average(self) -> float:
-        obj = copy.deepcopy(self._obj)
+        obj = copy.copy(self._obj)
         obj._batch_mode = LogicBatchMethod.Average
         return _DeviceLogicType(obj, self._logic_type)
 
     @property
     def Sum(self) -> float:
-        obj = copy.deepcopy(self._obj)
+        obj = copy.copy(self._obj)
         obj._batch_mode = LogicBatchMethod.Sum
         return _DeviceLogicType(obj, self._logic_type)
 
